@@ -69,6 +69,10 @@ CHECKS = {
    text="NameMap.tla models how names become UUIDs and back: FromTuple's collect / map / assign-by-position, and the read path's de-duplication, lookup in pages of at most MP and scatter to every asking position; TLC checks for every batch up to a length over three symbols that the round trip is the identity position by position, that every distinct id is looked up exactly once and that no page exceeds MP. Every batch shape is instantiated with nine classes of adversarial strings and sized batches cross the real page of 100 in five repetition patterns; the real Mapper round trip, the determinism/injectivity of the id mapping, write + REST/gRPC read-back and the size of every lookup statement are checked.",
    note="sqlite only; UUIDv5 collisions are assumed away.",
    technique="TLA+ model checking (TLC) + spec-enumerated batch shapes replayed through mapper, manager and read APIs", ref="4/C16"),
+ "C18": dict(
+   text="Codec.tla specifies the human-readable form as an automaton over character sequences (cut on the first ':', '#', '@', strip the optional bracket pair, subject set iff the subject contains ':') with the documented domain Dom_string; TLC checks on every text up to a length that parsing fails or the printed form of the result re-parses to the same value, and on 22 000 structured values that the round trip is the identity on Dom_string. Every text is parsed by the real FromString and compared with the automaton (result and re-parse); every value goes through String/FromString, JSON, URL query and protobuf (as a relationship and as a query with every subset of fields).",
+   note="For JSON / URL query / protobuf the specification is only the identity law over the enumerated value space; the string form is the part with a real model. Alphabet {a, b, :, #, @, (, )}, texts up to length 5 (quick) / 6 (thorough).",
+   technique="TLA+ model checking of the string-form automaton + exhaustive model-vs-implementation comparison", ref="4/C18"),
 }
 NOT_YET = "check not built yet in this session (work in progress, see DESIGN.md section 12)"
 
